@@ -111,7 +111,13 @@ func newScheduler(i *interpreter) *scheduler {
 func runGoroutineMode(i *interpreter, fn *ssa.Function) {
 	s := newScheduler(i)
 	i.sched = s
-	defer func() { i.sched = nil }()
+	i.lastSchedule = ""
+	defer func() {
+		// violations detected after the run has ended (an uncaught panic of a goroutine, a budget) still
+		// need the schedule for the guided native replay
+		i.lastSchedule = s.scheduleString()
+		i.sched = nil
+	}()
 	main := &goroutine{id: 0, resume: make(chan bool), isMain: true}
 	s.gs = append(s.gs, main)
 	s.start(main, fn, nil)
